@@ -252,6 +252,26 @@ func genC03(t *rapid.T) ReqCase {
 		o.MaxBiases = 0
 	}
 	gr := genRequest(t, o)
+	if g.Chance(1, 10) {
+		// "any real weights and values": un-normalised magnitudes (values up to 1e12, utilities beyond 2^63 * 1e-8)
+		f := g.PickF(1e6, 1e9, 1e11, 1e12)
+		for _, a := range asL(gr.Req["knownAlternatives"]) {
+			cm := a.(M)["criteria"].(M)
+			for _, k := range sortedKeys(cm) {
+				cm[k] = num(cm[k]) * f
+			}
+		}
+		for _, cr := range asL(gr.Req["criteria"]) {
+			if vr := asM(cr.(M)["valuesRange"]); vr != nil {
+				vr["min"], vr["max"] = num(vr["min"])*f, num(vr["max"])*f
+				if num(vr["max"]) <= num(vr["min"]) {
+					delete(cr.(M), "valuesRange")
+				}
+			}
+		}
+		gr.Labels = append(gr.Labels, "hugeValues")
+		return mkReqCase(gr)
+	}
 	if m == "choquetIntegral" && g.Chance(1, 2) {
 		nearTies(g, gr.Req, []float64{5e-6, -5e-6, 2e-5, -2e-5, 9e-6, 1.1e-5}, true)
 		fixRanges(gr.Req)
